@@ -12,6 +12,11 @@ Sub-checks (one constructor of C14.Corr.case each):
            soap.parse_soap_enveloped_saml_thingy / Entity.unravel
   unravel: Entity.unravel on deflated / plain / malformed payloads, every binding
   art    : entity.create_artifact + Entity.artifact2destination
+  artfed : the same through the resolver's METADATA on a long-lived Saml2Client / Server: federations of several
+           documents and entities (SP / IdP roles, several descriptors, with / without ArtifactResolutionService)
+           -> Entity.__init__ / reload_metadata -> MetadataStore.construct_source_id -> Entity.sourceid;
+           create_artifact / Entity.use_artifact at the issuer, apply_binding(HTTP-Artifact), SAMLart read from
+           the URL, artifact2destination at the resolver; judged against the metadata documents
 """
 import base64
 import hashlib
@@ -29,8 +34,8 @@ PID = "C14"
 PARALLEL = 6
 CASE_TYPE = "C14.Corr.case"
 RUNNER = "C14.Corr.run"
-# 1: open.  2, 3, 4, 5: repaired in /repo (status fixed): a case in these classes is a VIOLATION again.
-FINDING_CLASSES = {1: "C14-F1", 2: "C14-F2", 3: "C14-F3", 4: "C14-F4", 5: "C14-F8"}
+# 1: open.  2, 3, 4, 5, 6: repaired in /repo (status fixed): a case in these classes is a VIOLATION again.
+FINDING_CLASSES = {1: "C14-F1", 2: "C14-F2", 3: "C14-F3", 4: "C14-F4", 5: "C14-F8", 6: "C14-F9"}
 RULE = ("stdlib: seeded random + boundary byte strings through base64/html/urllib.parse and the Coq models (equality of "
         "outputs); post/redir/arturl: complete product RelayState alphabet x destination alphabet for a small unicode "
         "message (destinations: every combination of none/empty/non-empty query, trailing '?' '&', fragment, markup, "
@@ -40,7 +45,15 @@ RULE = ("stdlib: seeded random + boundary byte strings through base64/html/urlli
         "RelayState sample; soap: every pool message incl. declaration variants and declaration text inside the body; "
         "unravel: deflated, plain and malformed payloads x all bindings; art: endpoint indexes 0..300 + sample of "
         "301..65535 (thorough: all 0..65535), entityIDs incl. unicode, metadata via MetadataStore.construct_source_id and "
-        "synthetic maps (missing descriptor / service keys, several descriptors), malformed artifacts.  non-trivial = "
+        "synthetic maps (missing descriptor / service keys, several descriptors), malformed artifacts; artfed: operation "
+        "sequences on a long-lived Saml2Client / Server - construction, then 0..3 reload_metadata (order reversed / rotated, "
+        "members removed / added / moved to other endpoints / given other roles, documents merged) - over federations of 1..5 "
+        "metadata documents (EntitiesDescriptor or single EntityDescriptor) with 1..7 entities, each entity IdP, SP, both, two "
+        "descriptors of one role, descriptors without ArtifactResolutionService, attribute authority only; entityIDs incl. "
+        "unicode, markup characters, one a prefix of another, case variants, a duplicated one; index attributes canonical, "
+        "with white space, with leading zeros; every 2- and 3-member federation whose members all publish index 0 and 1 in "
+        "every document order; after every load: every member x both roles x every published index + an unpublished one, "
+        "issuers that are not (or no longer) in the metadata; artifacts by create_artifact and by Entity.use_artifact.  non-trivial = "
         "distinct (sub-check, character classes present in RelayState/destination/message, type, outcome)")
 def regenerate_tables(ctx):
     """Translators.  v1: pack.add_query as it reads NOW -> coq/gen/C14Src.v (C14/Source.v proves it equal to the
@@ -191,8 +204,12 @@ def src2_items():
                       "func": lambda a: "(call_fn v_func %s)" % a[0]}}),
         (ent, "Entity.artifact2destination", {
             "name": "src2_artifact2destination", "params": ["self", "artifact", "descriptor"],
-            "extra_params": [("b64decode", F1), ("int_base", F2)], "globals": g_art, "lenient_raise_args": True,
-            "calls": {"base64.b64decode": b64d, "int": lambda a: "(int_base %s %s)" % (a[0], a[1] if len(a) > 1 else "PErr")}}),
+            "extra_params": [("b64decode", F1), ("int_base", F2), ("int_dec", F1), ("str_isascii", F1), ("str_isdigit", F1)],
+            "globals": g_art, "lenient_raise_args": True,
+            "calls": {"base64.b64decode": b64d,
+                      "int": lambda a: "(int_base %s %s)" % (a[0], a[1]) if len(a) > 1 else "(int_dec %s)" % a[0],
+                      "_index.isascii": lambda a: "(str_isascii v__index)",
+                      "_index.isdigit": lambda a: "(str_isdigit v__index)"}}),
     ]
 
 
@@ -208,8 +225,13 @@ TRUSTED = ["source-to-Gallina translator harness/py2coq.py + coq/theories/Base/P
            "are < 128 - the embedding refuses to slice other strings; sha1 source ids are covered by the correspondence cases only)",
            "hypotheses of the c14_source2 theorems about external calls: html.escape(s, quote=True), base64.b64encode/b64decode, "
            "zlib.decompress(d, -15), urllib.parse.urlencode, str.encode('utf-8') = identity on the byte representation, "
-           "bytes.decode('ascii'), getattr(soap, ...) + call, int(b, 16) on at most two bytes",
+           "bytes.decode('ascii'), getattr(soap, ...) + call, int(b, 16) on at most two bytes, str.isascii(), str.isdigit() on an ASCII "
+           "str and int(s) on a str of ASCII decimal digits (artifact2destination since fbf0c2eb)",
            "zlib (observed per case, abstract in the proofs)", "hashlib.sha1 (observed per case, abstract in the proofs)",
+           "artfed: the metadata parser (saml2.md / mdie.to_dict) is modelled only in what construct_source_id and artifact2destination "
+           "read: which of spsso_descriptor / idpsso_descriptor exist, which descriptors carry artifact_resolution_service, "
+           "index (white space stripped) and location of every service, first occurrence of a duplicated entityID in one document "
+           "wins; the model's table is compared with the real Entity.sourceid after every load",
            "xml.etree / defusedxml parser and serialiser on the SOAP receiver side (compared by canonical tree digest)",
            "html.parser.HTMLParser and urllib.parse as the receiver's readers", "renderer harness/render.py",
            "abstraction in harness/c14.py"]
@@ -223,6 +245,9 @@ ASSUMPTIONS = [
     "int(b, 16) is modelled for slices of at most two bytes (what artifact2destination passes)",
     "redirect signing (sign=True) is property C15, not C14",
     "open finding class: 1 (artifact endpoint index >= 256); the artifact round-trip theorem is stated outside it (idx_ok)",
+    "artfed: no SHA-1 collision among the entityIDs of a federation and the issuer (hypothesis of c14_artifact_federation); "
+    "entityIDs identify entities (no claim for a federation that lists one entityID twice); index attributes are valid "
+    "xs:unsignedShort (an invalid one makes pysaml2 drop the whole EntitiesDescriptor); inline metadata sources",
 ]
 
 POST, REDIRECT = world.BINDING_HTTP_POST, world.BINDING_HTTP_REDIRECT
@@ -373,6 +398,21 @@ class _Pool:
                 e = "(Some [" + "; ".join("None" if d is None else "(Some %s)" % self.pairs(d) for d in descs) + "])"
             ents.append("(%s, %s)" % (self.s(bytes.fromhex(sid)), e))
         return "[" + "; ".join(ents) + "]"
+
+    def view(self, v):
+        if v is None:
+            return "None"
+        return "(Some [" + "; ".join("None" if d is None else "(Some %s)" % self.pairs(d) for d in v) + "])"
+
+    def fsm(self, sm):
+        return "[" + "; ".join("(%s, (%s, %s))" % (self.s(bytes.fromhex(k)), self.view(a), self.view(b)) for k, a, b in sm) + "]"
+
+    def fed(self, fed):
+        def descs(ds):
+            return "[" + "; ".join(self.pairs(d) for d in ds) + "]"
+
+        return "[" + "; ".join("[" + "; ".join("{| fe_eid := %s; fe_sp := %s; fe_idp := %s |}" % (
+            self.s(e["eid"]), descs(e["sp"]), descs(e["idp"])) for e in src["ents"]) + "]" for src in fed) + "]"
 
     def toks(self, toks):
         out = []
@@ -770,6 +810,201 @@ def gen_artifacts(ctx):
     return cases
 
 
+# ---------------------------------------------------------------------------- artifacts through the resolver's metadata
+# A federation = the metadata documents a resolving party is configured with: sources in configuration order,
+# entities in document order, each entity with its SPSSODescriptor / IDPSSODescriptor elements and their
+# ArtifactResolutionService elements (index attribute as spelled, Location).  This is the ground truth of the
+# `artfed` cases; what the library derives from it (Entity.sourceid) is an observation.
+FED_EIDS = [world.SP_ID, world.IDP_ID, "urn:mace:example.org:sp:three", "https://idp-två.example.org/idp?x=1&y=2", "urn:x", "URN:X",
+            "https://a.example/<\"'>&", world.IDP_ID + "2", "e" * 200, "https://ünï.example/中", "urn:x ", "0"]
+FED_SHAPES = ["idp", "idp", "sp", "both", "idp2", "idp-noars", "sp-noars", "idp+sp-noars", "idp2-one-noars", "none"]
+FED_UNKNOWN = "urn:not-in-any-metadata"
+
+
+def fed_spell(rng, i, odd):
+    """Spelling of an index attribute.  odd = the federation may use legal non-canonical xs:unsignedShort spellings."""
+    k = rng.random()
+    if odd and k < 0.5:
+        return rng.choice(["0%d", "00%d", "000%d"]) % i
+    if k > 0.93:
+        return rng.choice([" %d", "%d ", " %d  ", "\t%d\n"]) % i
+    return str(i)
+
+
+def fed_entity(rng, eid, n, shape, odd=False, big=False):
+    """One entity; n makes its locations unique, so that an endpoint of another entity is never the right answer."""
+    pool_ = [0, 1, 1, 0, 2, 7, 10, 16, 171, 255] + ([256, 300, 4096] if big else [])
+
+    def svcs(role, d, k=None):
+        idxs = []
+        for i in [0, 1][: rng.randint(1, 2)] + [rng.choice(pool_) for _ in range(rng.randint(0, 2) if k is None else k)]:
+            if i not in idxs:
+                idxs.append(i)
+        rng.shuffle(idxs)
+        return [[fed_spell(rng, i, odd), "https://e%d.example.org/ars/%s/%d/%d" % (n, role, d, i)] for i in idxs]
+
+    sp, idp = [], []
+    if shape in ("idp", "both", "idp+sp-noars"):
+        idp = [svcs("idp", 0)]
+    if shape in ("sp", "both"):
+        sp = [svcs("sp", 0)]
+    if shape == "idp2":
+        a = svcs("idp", 0)
+        idp = [a[:1], [[fed_spell(rng, 100 + j, odd), "https://e%d.example.org/ars/idp/1/%d" % (n, 100 + j)] for j in range(rng.randint(1, 2))] + a[1:]]
+    if shape == "idp-noars":
+        idp = [[]]
+    if shape in ("sp-noars", "idp+sp-noars"):
+        sp = [[]]
+    if shape == "idp2-one-noars":
+        idp = [svcs("idp", 0), []]
+        if rng.random() < 0.5:
+            idp.reverse()
+    return {"eid": eid, "sp": sp, "idp": idp}
+
+
+def fed_index_value(spelled):
+    t = spelled.strip(" \t\r\n")
+    return int(t) if t and all("0" <= c <= "9" for c in t) else None
+
+
+def fed_resolutions(rng, fed, extra_eids, limit, counter):
+    """Resolutions to try against a federation: every entity in both roles with every index it publishes, an index it
+    does not publish, entities that are not (or no longer) in the metadata."""
+    out = []
+    ents = [e for src in fed for e in src["ents"]]
+    for e in ents:
+        for role in ("idpsso", "spsso"):
+            descs = e["idp" if role == "idpsso" else "sp"]
+            vals = []
+            for d in descs:
+                for i, _ in d:
+                    v = fed_index_value(i)
+                    if v is not None and v not in vals:
+                        vals.append(v)
+            absent = rng.choice([x for x in (3, 5, 99, 254) if x not in vals])
+            for idx in (vals + [absent]) if descs else [rng.choice([0, 1])]:
+                out.append((e["eid"], idx, role))
+    for eid in extra_eids:
+        if eid not in [e["eid"] for e in ents]:
+            out.append((eid, rng.choice([0, 1]), rng.choice(["idpsso", "spsso"])))
+    if limit is not None and len(out) > limit:
+        keep = sorted(rng.sample(range(len(out)), limit))
+        out = [out[i] for i in keep]
+    steps = []
+    for eid, idx, role in out:
+        counter[0] += 1
+        # the artifact is made by Entity.use_artifact of the real issuer, or by create_artifact with the entityID /
+        # message handle given as str or as bytes
+        via = "use" if eid in (world.SP_ID, world.IDP_ID) and rng.random() < 0.7 else \
+            rng.choice(["create", "create", "create-eid-bytes", "create-handle-str"])
+        c = counter[0]
+        steps.append({"op": "res", "eid": eid, "idx": idx, "role": role, "via": via,
+                      # 20 ASCII bytes, distinct per resolution; mostly zero bytes keep the Coq term short
+                      "handle": (bytes([c & 0x7F, (c >> 7) & 0x7F, (c >> 14) & 0x7F]) + bytes(16) + b"\x01").hex()})
+    return steps
+
+
+def fed_source(ents, rng):
+    return {"doc": "single" if len(ents) == 1 and rng.random() < 0.5 else "entities", "ents": ents}
+
+
+def fed_mutate(rng, fed, n0):
+    """The federation after a metadata refresh: order changed, members removed / added / moved to other endpoints."""
+    import copy
+
+    fed = copy.deepcopy(fed)
+    kind = rng.choice(["reverse", "rotate", "remove", "add", "move", "reshape", "merge"])
+    ents = [e for s_ in fed for e in s_["ents"]]
+    if kind == "reverse":
+        for s_ in fed:
+            s_["ents"].reverse()
+        fed.reverse()
+    elif kind == "rotate":
+        for s_ in fed:
+            s_["ents"] = s_["ents"][1:] + s_["ents"][:1]
+        fed = fed[1:] + fed[:1]
+    elif kind == "remove" and len(ents) > 1:
+        victim = rng.choice(ents)["eid"]
+        for s_ in fed:
+            s_["ents"] = [e for e in s_["ents"] if e["eid"] != victim]
+        fed = [s_ for s_ in fed if s_["ents"]]
+    elif kind == "add":
+        free = [x for x in FED_EIDS if x not in [e["eid"] for e in ents]]
+        new = fed_entity(rng, rng.choice(free), n0 + 50, rng.choice(FED_SHAPES[:5]))
+        if rng.random() < 0.5:
+            fed.insert(rng.randint(0, len(fed)), fed_source([new], rng))
+        else:
+            s_ = rng.choice(fed)
+            s_["ents"].insert(rng.randint(0, len(s_["ents"])), new)
+    elif kind in ("move", "reshape"):
+        e = rng.choice(ents)
+        new = fed_entity(rng, e["eid"], n0 + 60, rng.choice(FED_SHAPES) if kind == "reshape" else
+                         ("idp" if e["idp"] else "sp"))
+        e["sp"], e["idp"] = new["sp"], new["idp"]
+    else:   # merge: all entities in one document
+        fed = [{"doc": "entities", "ents": ents}]
+    for s_ in fed:
+        if len(s_["ents"]) != 1:
+            s_["doc"] = "entities"
+    return fed
+
+
+def gen_federations(ctx):
+    import itertools
+
+    rng = ctx.rng
+    cases = []
+    counter = [0]
+
+    def case(recv, feds, extra, limit=None):
+        steps = []
+        for fed in feds:
+            steps.append({"op": "load", "fed": fed})
+            steps += fed_resolutions(rng, fed, extra, limit, counter)
+        return {"k": "artfed", "recv": recv, "steps": steps}
+
+    # (1) small federations, complete: 2 and 3 members that all publish index 0 and 1, every document order, in one
+    #     document (then re-loaded in reversed order) or one document per member
+    for n in (2, 3):
+        members = [fed_entity(rng, eid, j, sh) for j, (eid, sh) in
+                   enumerate(zip(["https://idp-one.example.org/idp.xml", world.SP_ID, "https://idp-två.example.org/idp?x=1&y=2"],
+                                 ["idp", "both", "idp2"]))][:n]
+        for pi, perm in enumerate(itertools.permutations(range(n))):
+            ents = [members[i] for i in perm]
+            one = [{"doc": "entities", "ents": ents}]
+            many = [{"doc": "single" if i % 2 else "entities", "ents": [e]} for i, e in enumerate(ents)]
+            lim = None if ctx.thorough else 7
+            if ctx.thorough or pi % 2 == 0:
+                cases.append(case("sp" if len(cases) % 2 else "idp", [one, [{"doc": "entities", "ents": ents[::-1]}]], [FED_UNKNOWN], lim))
+            else:
+                cases.append(case("sp" if len(cases) % 2 else "idp", [one], [FED_UNKNOWN], lim))
+            if ctx.thorough or pi % 2 == 1:
+                cases.append(case("sp" if len(cases) % 2 else "idp", [many], [FED_UNKNOWN], lim))
+    # (1b) index attributes in every legal spelling of an xs:unsignedShort: canonical, white space, leading zeros
+    spelled = {"eid": "https://idp-one.example.org/idp.xml", "sp": [],
+               "idp": [[[sp_, "https://e9.example.org/ars/idp/0/%d" % i] for i, sp_ in
+                        enumerate(["0", " 1", "2 ", "03", "004", "\t5\n", "6", "00007"])]]}
+    other = fed_entity(rng, "urn:x", 8, "idp")
+    cases.append(case("sp", [[{"doc": "entities", "ents": [spelled, other]}]], []))
+    # (2) random federations on a long-lived resolver: construction, then metadata refreshes
+    for c in range(200 if ctx.thorough else 32):
+        odd = c % 9 == 4
+        eids = rng.sample(FED_EIDS, rng.randint(1, 6))
+        ents = [fed_entity(rng, eid, j, rng.choice(FED_SHAPES), odd=odd, big=(c % 11 == 7)) for j, eid in enumerate(eids)]
+        if c % 13 == 5 and len(ents) > 1:      # the same entityID twice (two documents, or one): no claim, model only
+            ents.append(fed_entity(rng, ents[0]["eid"], 40, "idp"))
+        fed, i = [], 0
+        while i < len(ents):
+            k = rng.randint(1, 3)
+            fed.append(fed_source(ents[i:i + k], rng))
+            i += k
+        feds = [fed]
+        for r in range(rng.choice([0, 1, 1, 2, 3])):
+            feds.append(fed_mutate(rng, feds[-1], 10 * (r + 1)))
+        cases.append(case("sp" if c % 2 else "idp", feds, [FED_UNKNOWN] + eids, limit=20 if ctx.thorough else 6))
+    return cases
+
+
 def _weight(c):
     """Rough size of the Coq term of a case (bytes of string data), for balancing the shards."""
     k = c["k"]
@@ -783,6 +1018,8 @@ def _weight(c):
         return 3 * (len(c["dest"]) + len(c["rs"])) + 100
     if k in ("art", "artraw"):
         return 500
+    if k == "artfed":
+        return 300 * len(c["steps"])
     return 60
 
 
@@ -808,7 +1045,7 @@ def balance(cases):
 def generate(ctx):
     msgs = pool(ctx.thorough)
     ent("sp_ars")      # built before the driver forks its observers
-    return balance(gen_stdlib(ctx) + gen_bindings(ctx, msgs) + gen_artifacts(ctx))
+    return balance(gen_stdlib(ctx) + gen_bindings(ctx, msgs) + gen_artifacts(ctx) + gen_federations(ctx))
 
 
 # ---------------------------------------------------------------------------- observation
@@ -890,6 +1127,90 @@ def canon_digest(xml):
 
     walk(root, True)
     return hashlib.sha256("".join(out).encode("utf-8")).hexdigest()[:24]
+
+
+# ---- artfed: the federation as metadata documents, the resolver as a real Saml2Client / Server
+def fed_entity_xml(e):
+    from xml.sax.saxutils import quoteattr
+
+    body = ""
+    for d in e["idp"]:
+        body += "<md:IDPSSODescriptor protocolSupportEnumeration=%s>%s%s</md:IDPSSODescriptor>" % (
+            quoteattr(world.PROTO), "".join(world.endpoint("ArtifactResolutionService", SOAP, l, i) for i, l in d),
+            world.endpoint("SingleSignOnService", REDIRECT, "https://example.org/sso"))
+    for d in e["sp"]:
+        body += "<md:SPSSODescriptor protocolSupportEnumeration=%s>%s%s</md:SPSSODescriptor>" % (
+            quoteattr(world.PROTO), "".join(world.endpoint("ArtifactResolutionService", SOAP, l, i) for i, l in d),
+            world.endpoint("AssertionConsumerService", POST, "https://example.org/acs", 0))
+    if not body:     # an entity that is neither: an attribute authority
+        body = ("<md:AttributeAuthorityDescriptor protocolSupportEnumeration=%s>%s</md:AttributeAuthorityDescriptor>"
+                % (quoteattr(world.PROTO), world.endpoint("AttributeService", SOAP, "https://example.org/aa")))
+    return "<md:EntityDescriptor %s entityID=%s>%s</md:EntityDescriptor>" % (world.MD_NS, quoteattr(e["eid"]), body)
+
+
+def fed_docs(fed):
+    return [fed_entity_xml(src["ents"][0]) if src["doc"] == "single" else world.entities(*[fed_entity_xml(e) for e in src["ents"]])
+            for src in fed]
+
+
+def _view(ent_, key):
+    if key not in ent_:
+        return None
+    return [None if "artifact_resolution_service" not in d else [[s_["index"], s_["location"]] for s_ in d["artifact_resolution_service"]]
+            for d in ent_[key]]
+
+
+def observe_artfed(case):
+    from saml2.entity import create_artifact
+
+    env.VClock(1700000000).install()
+    recv = None
+    steps = []
+    eids = []
+    for st in case["steps"]:
+        if st["op"] == "load":
+            docs = fed_docs(st["fed"])
+            for src in st["fed"]:
+                eids += [e["eid"] for e in src["ents"]]
+            try:
+                if recv is None:
+                    recv = (world.make_sp if case["recv"] == "sp" else world.make_idp)(metadata_xml=docs)
+                    ok = True
+                else:
+                    ok = recv.reload_metadata({"inline": docs})
+            except Exception as ex:
+                ok = _exc(ex)
+            sm = [] if recv is None else [[kk.hex(), _view(v, "spsso_descriptor"), _view(v, "idpsso_descriptor")]
+                                          for kk, v in recv.sourceid.items()]
+            steps.append({"ok": ok, "sm": sm})
+            continue
+        eids.append(st["eid"])
+        handle = bytes.fromhex(st["handle"])
+        try:
+            if st["via"] == "use":
+                issuer = ent("sp" if st["eid"] == world.SP_ID else "idp")
+                art = issuer.use_artifact("<m>%d</m>" % st["idx"], st["idx"])
+                handle = base64.b64decode(art)[-20:]      # random part of the handle: read back from the artifact
+            else:
+                issuer = ent("sp")
+                art = create_artifact(st["eid"].encode("utf-8") if st["via"] == "create-eid-bytes" else st["eid"],
+                                      handle.decode("ascii") if st["via"] == "create-handle-str" else handle, st["idx"])
+            info = issuer.apply_binding(ARTIFACT, art, "https://rp.example.org/art?keep=1", "rs&%d#?=" % st["idx"],
+                                        response=False, sign=False)
+            got = dict(urllib.parse.parse_qsl(urllib.parse.urlsplit(info["url"]).query)).get("SAMLart", "")
+        except Exception as ex:
+            steps.append({"art": "", "handle": handle.hex(), "dest": ["err", "send:" + _exc(ex)]})
+            continue
+        try:
+            dest = ["ok", recv.artifact2destination(got, st["role"])]
+        except Exception as ex:
+            dest = ["err", _exc(ex)]
+        steps.append({"art": got, "handle": handle.hex(), "dest": dest})
+    sha = []
+    for e_ in eids:
+        if e_ not in [x[0] for x in sha]:
+            sha.append([e_, hashlib.sha1(e_.encode("utf-8")).hexdigest()])
+    return {"sha": sha, "steps": steps}
 
 
 def observe(case):
@@ -1085,6 +1406,8 @@ def observe(case):
         except Exception as ex:
             dest = ["err", _exc(ex)]
         return {"sm": sm, "dest": dest}
+    if k == "artfed":
+        return observe_artfed(case)
     raise ValueError(k)
 
 
@@ -1143,6 +1466,16 @@ def _coq_case(P, case, obs):
         return "KArt %s %s %s" % (x, P.s(obs["art"]), P.ares(obs["dest"]))
     if k == "artraw":
         return "KArtRaw %s %s %s" % (P.sm(obs["sm"]), P.s(case["raw"]), P.ares(obs["dest"]))
+    if k == "artfed":
+        steps = []
+        for st, o in zip(case["steps"], obs["steps"]):
+            if st["op"] == "load":
+                steps.append("FLoad %s %s" % (P.fed(st["fed"]), P.fsm(o["sm"])))
+            else:
+                steps.append("FResolve %s %s (Z.to_nat (%d)%%Z) %s %s %s" % (
+                    P.s(st["eid"]), P.s(bytes.fromhex(o["handle"])), st["idx"], "RIdp" if st["role"] == "idpsso" else "RSp",
+                    P.s(o["art"]), P.ares(o["dest"])))
+        return "KArtFed %s [%s]" % (P.dtab([[_b(a).hex(), b] for a, b in obs["sha"]]), "; ".join(steps))
     raise ValueError(k)
 
 
@@ -1174,13 +1507,18 @@ def nontrivial(case, obs):
                 i if i < 300 else i % 97)
     if k == "artraw":
         return (k, case["raw"][:12], case["shape"], obs["dest"][0])
+    if k == "artfed":
+        loads = [st["fed"] for st in case["steps"] if st["op"] == "load"]
+        outs = [o["dest"][0] if o["dest"][0] == "err" else ("loc" if o["dest"][1] else "none") for o in obs["steps"] if "dest" in o]
+        return (k, case["recv"], len(loads), tuple(tuple(len(src["ents"]) for src in f) for f in loads),
+                outs.count("loc"), outs.count("none"), outs.count("err"))
     return None
 
 
 def histogram(cases, observed):
     h = {"by_subcheck": {}, "post_outcomes": {}, "redirect_outcomes": {}, "unravel_outcomes": {}, "artifact_outcomes": {},
          "messages": {}, "relaystate_classes": {}, "destination_classes": {}, "destination_query_state": {},
-         "artifact_index_ranges": {}}
+         "artifact_index_ranges": {}, "federation_loads": {}, "federation_resolutions": {}, "federation_issuer_position": {}}
 
     def inc(d, key):
         d[key] = d.get(key, 0) + 1
@@ -1204,6 +1542,27 @@ def histogram(cases, observed):
             if k == "art":
                 i = c["idx"]
                 inc(h["artifact_index_ranges"], "0-15" if i < 16 else "16-255" if i < 256 else "256-4095" if i < 4096 else "4096-65535")
+        elif k == "artfed":
+            cur, first = None, True
+            for st, so in zip(c["steps"], o["steps"]):
+                if st["op"] == "load":
+                    cur = st["fed"]
+                    n_ars = len(so["sm"])
+                    inc(h["federation_loads"], "%s: %s, %s with an ArtifactResolutionService" % (
+                        "construction" if first else "reload_metadata", "one document" if len(cur) == 1 else "several documents",
+                        "no entity" if n_ars == 0 else "one entity" if n_ars == 1 else "several entities"))
+                    first = False
+                    continue
+                d = so["dest"]
+                inc(h["federation_resolutions"], "error:" + d[1] if d[0] == "err" else ("resolved" if d[1] else "no-endpoint"))
+                pos = "not in the metadata"
+                for s_ in cur:
+                    ids = [e["eid"] for e in s_["ents"]]
+                    if st["eid"] in ids:
+                        i = ids.index(st["eid"])
+                        pos = "only entity of its document" if len(ids) == 1 else "last of its document" if i == len(ids) - 1 \
+                            else "first of its document" if i == 0 else "inside its document"
+                inc(h["federation_issuer_position"], pos)
     return h
 
 
